@@ -231,13 +231,38 @@ def run_impl_parallel(fn_module: str, fn_name: str, cases: list, procs: int | No
     implementation is imported fresh from /repo's working tree on every run)."""
     if not cases:
         return []
-    procs = procs or min(16, max(1, len(cases)))
+    procs = min(procs or 16, int(os.environ.get("VERIF_PROCS", "16")), max(1, len(cases)))
     if procs == 1 or os.environ.get("VERIF_SERIAL"):
         _worker_init()
         return [_worker_call((fn_module, fn_name, c)) for c in cases]
+    import concurrent.futures as cf
+
     ctx = mp.get_context("spawn")
-    with ctx.Pool(procs, initializer=_worker_init) as pool:
-        return pool.map(_worker_call, [(fn_module, fn_name, c) for c in cases], chunksize=chunk)
+    timeout = float(os.environ.get("VERIF_WORKER_TIMEOUT", "900"))
+    out: list = [None] * len(cases)
+    ex = cf.ProcessPoolExecutor(max_workers=procs, mp_context=ctx, initializer=_worker_init)
+    try:
+        futs = {ex.submit(_worker_call, (fn_module, fn_name, c)): i for i, c in enumerate(cases)}
+        try:
+            for f in cf.as_completed(futs, timeout=timeout):
+                i = futs[f]
+                try:
+                    out[i] = f.result()
+                except Exception as e:  # noqa: BLE001  (worker process died)
+                    out[i] = {"__worker_lost__": f"{type(e).__name__}: {e}"}
+        except cf.TimeoutError:
+            pass
+        for f, i in futs.items():
+            if out[i] is None:
+                out[i] = {"__worker_lost__": f"no result within {timeout:.0f}s"}
+    finally:
+        ex.shutdown(wait=False, cancel_futures=True)
+        for p in list(getattr(ex, "_processes", {}).values()):
+            try:
+                p.kill()
+            except Exception:  # noqa: BLE001
+                pass
+    return out
 
 
 # --------------------------------------------------------------------------- findings
@@ -357,6 +382,11 @@ def run_check(spec: Spec, tier: str, seed: int, replay_path: str | None = None) 
         print(f"INFRA property={spec.prop_id}: timeout {e}", file=sys.stderr)
         return 2
 
+    if os.environ.get("VERIF_DEBUG"):
+        REPLAYS.mkdir(exist_ok=True)
+        (REPLAYS / f"debug-{spec.prop_id}.json").write_text(json.dumps(
+            [{"kind": f.kind, "name": f.name, "sig": f.signature, "detail": f.detail, "case": f.case} for f in ctx.failures],
+            indent=1, default=str))
     known = load_known(spec.prop_id)
     # proof obligations that no longer check
     for prob in aud["problems"]:
